@@ -214,4 +214,60 @@ theorem consumeRun_eq_run (c : Cfg) (k : Nat) (tevs : List TEv) (st : St)
     simp only [consumeRun, List.map_cons, run, hc]
     rw [ih _ (fun t' ht' => hno t' (List.mem_cons_of_mem _ ht'))]
 
+/-! ### "earlier in the history" (claim audit 2, C20 item 7)
+
+`Origin` only says that SOME message event with that id occurs SOMEWHERE in the history. `OriginAt` pins the position:
+the history splits as `ts1 ++ t :: ts2`, `t` is the `HandleMessage` event, `outT` is the output of `t`'s own step (the
+trace of `ts1 ++ [t]` is the trace of `ts1` followed by `outT`), the `publish` sits in `outT`, and the trace up to and
+including `outT` is a prefix of what precedes the `accepted` — so the delivery, and the publish it caused, come before. -/
+
+def OriginAt (c : Cfg) (k : Nat) (st : St) (tevs : List TEv) (pre' : List Out) (a id : Nat) (b : Bytes) : Prop :=
+  (⟨a, id, b⟩ : Tx) ∈ st.outstanding ∨
+  ∃ ts1 t ts2 outT rest, tevs = ts1 ++ t :: ts2 ∧
+    consumeRun c k st (ts1 ++ [t]) = consumeRun c k st ts1 ++ outT ∧ Out.publish a id b ∈ outT ∧
+    pre' = consumeRun c k st ts1 ++ outT ++ rest ∧
+    ∃ m f p ae, t.ev = .msg m f p ae ∧ m.id = id ∧ (c.filterOn = false → b = m.body) ∧ (c.filterOn = true → f = .pass b)
+
+/-- **every occurrence** of `fin id`, with the position of the delivery that caused the accepted publish -/
+theorem fin_split_pos (c : Cfg) (k : Nat) (tevs : List TEv) (st : St) (id : Nat) (pre post : List Out)
+    (h : consumeRun c k st tevs = pre ++ Out.fin id :: post) :
+    (∃ pre' a b, pre = pre' ++ [Out.accepted a id] ∧ OriginAt c k st tevs pre' a id b) ∨ Dropped c tevs id ∨ GaveUp k tevs id := by
+  induction tevs generalizing st pre with
+  | nil => simp [consumeRun] at h
+  | cons t ts ih =>
+    unfold consumeRun at h
+    rcases append_split _ _ _ _ _ h with ⟨q, hA, _⟩ | ⟨p, hpre, hB⟩
+    · rcases consume_cases c k st t with ⟨m, f, pk, ae, hev, hsf, hc⟩ | hc
+      · rw [hc] at hA
+        have hid : m.id = id := by
+          cases pre with
+          | nil => simp at hA; exact hA.1
+          | cons x xs => simp at hA
+        exact Or.inr (Or.inr ⟨t, List.mem_cons_self .., m, f, pk, ae, hev, hid, hsf⟩)
+      · rw [hc] at hA
+        rcases step_fin_split c st t.ev id pre q hA with ⟨i, tx, _, ho, hid, hp, _⟩ | ⟨hf, m, pick, ae, hev, hid, _, _⟩
+        · left
+          refine ⟨[], tx.addr, tx.body, by simpa using hp, Or.inl ?_⟩
+          have := List.mem_of_getElem? ho
+          rw [← hid]
+          exact this
+        · exact Or.inr (Or.inl ⟨hf, t, List.mem_cons_self .., m, pick, ae, hev, hid⟩)
+    · rcases ih _ p hB with ⟨pre', a, b, hp, horig⟩ | ⟨hf, t', ht', hd⟩ | ⟨t', ht', hg⟩
+      · left
+        refine ⟨(consume c k st t).2 ++ pre', a, b, by rw [hpre, hp]; simp, ?_⟩
+        rcases horig with hin | ⟨ts1, t', ts2, outT, rest, hts, hrun, hpub, hpre', hrest⟩
+        · rcases consume_cases c k st t with ⟨m, f, pk, ae, hev, hsf, hc⟩ | hc
+          · rw [hc] at hin; exact Or.inl hin
+          · have hin' := hin
+            rw [hc] at hin'
+            rcases step_outstanding c st t.ev _ hin' with hin' | ⟨hpub, m, f, pk, ae, hev, hid, hb, hfl⟩
+            · exact Or.inl hin'
+            · refine Or.inr ⟨[], t, ts, (consume c k st t).2, pre', rfl, by simp [consumeRun], by rw [hc]; exact hpub,
+                by simp [consumeRun], m, f, pk, ae, hev, hid, fun h' => hb h', hfl⟩
+        · refine Or.inr ⟨t :: ts1, t', ts2, outT, rest, by rw [hts]; rfl, ?_, hpub, ?_, hrest⟩
+          · simp only [List.cons_append, consumeRun, hrun, List.append_assoc]
+          · simp only [consumeRun, hpre', List.append_assoc]
+      · exact Or.inr (Or.inl ⟨hf, t', List.mem_cons_of_mem _ ht', hd⟩)
+      · exact Or.inr (Or.inr ⟨t', List.mem_cons_of_mem _ ht', hg⟩)
+
 end Nsq.Proofs.RelayN2NTool
